@@ -565,3 +565,70 @@ def frames(ctx):
                    'made for this load/dump function (%d stores checked)'
                    % (qual, n), not bad, bad[:4])
         ctx.guarded('frame::' + qual, one)
+
+
+# ------------------------------------------------------------------ C13
+PRESENTATION = ('style', 'flow_style', 'start_mark', 'end_mark', 'anchor',
+                'comment', 'implicit')
+MESSAGE_CALLS = ('format', 'str', 'indent', 'RecognitionError',
+                 'SeasoningError', 'RuntimeError', 'repr')
+NODE_CTORS = ('ScalarNode', 'MappingNode', 'SequenceNode', 'Mark')
+
+
+def read_frame(ctx, files=('yatiml/recognizer.py', 'yatiml/loader.py',
+                           'yatiml/constructors.py', 'yatiml/util.py',
+                           'yatiml/irecognizer.py',
+                           'yatiml/introspection.py')):
+    """presentation details of nodes (styles, marks) are never inspected:
+    they only flow into messages and into nodes that are built"""
+    import ast as _ast
+    for rel in files:
+        mod = ctx.prog.modules[rel]
+        parents = {}
+        for n in _ast.walk(mod.tree):
+            for ch in _ast.iter_child_nodes(n):
+                parents[id(ch)] = n
+        bad = []
+        uses = 0
+        for n in _ast.walk(mod.tree):
+            if not (isinstance(n, _ast.Attribute) and n.attr in PRESENTATION):
+                continue
+            if isinstance(n.ctx, _ast.Store):
+                continue
+            uses += 1
+            ok = False
+            cur = n
+            while id(cur) in parents:
+                par = parents[id(cur)]
+                if isinstance(par, _ast.Call):
+                    f = par.func
+                    nm = f.attr if isinstance(f, _ast.Attribute) else (
+                        f.id if isinstance(f, _ast.Name) else '')
+                    if cur is not f and (nm in MESSAGE_CALLS
+                                         or nm in NODE_CTORS):
+                        ok = True
+                        break
+                if isinstance(par, (_ast.Assign, _ast.AnnAssign)):
+                    tg = par.targets[0] if isinstance(
+                        par, _ast.Assign) else par.target
+                    # start_mark = node.start_mark  (a local that is later
+                    # passed to a node constructor) or x.start_mark = ...
+                    if isinstance(tg, _ast.Attribute) and tg.attr in \
+                            PRESENTATION:
+                        ok = True
+                    elif isinstance(tg, _ast.Name) and tg.id in (
+                            'start_mark', 'end_mark', 'loc_str', 'message',
+                            'msg'):
+                        ok = True
+                    break
+                if isinstance(par, (_ast.If, _ast.While, _ast.Compare,
+                                    _ast.BoolOp, _ast.IfExp, _ast.Subscript,
+                                    _ast.comprehension, _ast.Return)):
+                    break
+                cur = par
+            if not ok:
+                bad.append('%s:%d .%s' % (rel, n.lineno, n.attr))
+        ctx.ob('readframe::' + rel, 'in %s the presentation details of a '
+               'node (%s) are only put into messages or into nodes being '
+               'built, never inspected (%d uses)' % (
+                   rel, ', '.join(PRESENTATION[:4]), uses), not bad, bad)
